@@ -97,15 +97,18 @@ Qed.
 Definition later1 (ts0 : list task) (k : nat) : Prop :=
   exists tk0, nth_error ts0 k = Some tk0 /\ t_start tk0 = 0 /\ t_mod tk0 = 1.
 
-Lemma extra_init : Extra 0 new_driver.
-Proof.
-  split; [exact snap_init|]. intros w H; discriminate.
-Qed.
+(* the hypotheses on the scripts, with channels: every task lies in the fragment, none of its
+   receives is a tie, and at most one task of a module receives *)
+Definition one_recv (ts0 : list task) : Prop :=
+  forall k k' tk0 tk0', nth_error ts0 k = Some tk0 -> nth_error ts0 k' = Some tk0' ->
+    rcv_of tk0 = true -> rcv_of tk0' = true -> t_mod tk0 = t_mod tk0' -> k = k'.
 
-Lemma start_pre0 ts0 : Forall init_ok ts0 ->
-  PreEv ts0 (later1 ts0) (init_world ts0) 0 0 (start_tasks 0 0 ts0) false.
+Definition chan_ok (ts0 : list task) : Prop := Forall (init_ok2 (arrivals ts0)) ts0 /\ one_recv ts0.
+
+Lemma start_pre0 ts0 : chan_ok ts0 ->
+  PreEv (arrivals ts0) (arrivals ts0) ts0 (later1 ts0) (init_world ts0) 0 0 (start_tasks 0 0 ts0) false.
 Proof.
-  intros Hinit. pose proof Hinit as Hinit'. rewrite Forall_forall in Hinit'.
+  intros [Hinit Hone]. pose proof Hinit as Hinit'. rewrite Forall_forall in Hinit'.
   destruct (inject_spec ts0 0 sp_new SI_new eq_refl) as (I1 & I2 & I3). cbn [spend sp_new sp_new_at s_zero s_rest app map] in I3.
   set (w0 := init_world ts0).
   assert (Hev : forall e, In e (spend (w_fes w0)) ->
@@ -114,18 +117,31 @@ Proof.
     unfold te in H. apply msgs_in in H. exact H. }
   assert (Hun0 : forall k tk, nth_error ts0 k = Some tk -> unspawned tk).
   { intros k tk Hk. destruct (Hinit' tk (nth_error_In _ _ Hk)) as (_ & H2 & _ & _ & H5 & _). split; assumption. }
-  assert (Hst0 : Forall2 tstate ts0 ts0).
-  { clear. induction ts0; constructor; [apply TUn; reflexivity|assumption]. }
+  assert (Hst0 : Forall2 (tstate (arrivals ts0) (arrivals ts0)) ts0 ts0).
+  { assert (H : forall l, Forall (init_ok2 (arrivals ts0)) l -> Forall2 (tstate (arrivals ts0) (arrivals ts0)) l l).
+    { induction 1 as [|tk l Hi _ IH]; constructor; [|exact IH]. apply TUn; [reflexivity|reflexivity|].
+      exact (proj2 (proj2 (proj2 (proj2 (proj2 (proj2 (proj2 Hi))))))). }
+    exact (H ts0 Hinit). }
   constructor; cbn [w0 init_world w_fes w_now w_mail w_tasks w_owner w_nid].
   - exact I1.
   - exact I2.
   - lia.
   - intros e _. lia.
-  - reflexivity.
+  - constructor.
+  - (* no message has been sent yet: the arrivals are the sorted send instants of the scripts *)
+    intros m' c. unfold chan_inst. cbn [chan map app]. split; [|split; [constructor|apply Forall_forall; intros a _; lia]].
+    unfold arrivals, fsends. f_equal.
+    assert (Hext : forall l, (forall tk, In tk l -> In tk ts0) ->
+              flat_map (fun tk0 => if t_mod tk0 =? m' then on_chan c (exp_sends (t_start tk0) None (t_steps tk0)) else []) l =
+              flat_map (fun tk => if t_mod tk =? m' then on_chan c (fut_sends tk) else []) l).
+    { induction l as [|tk l IH]; intros Hsub; [reflexivity|]. cbn [flat_map]. rewrite IH by (intros x Hx; apply Hsub; right; exact Hx).
+      destruct (Hinit' tk (Hsub tk (or_introl eq_refl))) as (_ & H2 & _ & _ & H5 & _). unfold fut_sends. rewrite H2, H5. reflexivity. }
+    apply Hext. intros tk Htk; exact Htk.
+  - intros k tk ch Hk Hw. destruct (Hun0 k tk Hk) as [Hc _]. rewrite Hc in Hw. discriminate.
   - assert (Hown0 : forall k tk s, nth_error ts0 k = Some tk -> In s (owned tk) -> False).
     { intros k tk s Hk Hbl. destruct (Hinit' tk (nth_error_In _ _ Hk)) as (_ & H2 & H3 & _).
       unfold owned, held in Hbl. rewrite H2, H3 in Hbl. destruct Hbl. }
-    constructor; [exact Hst0|exact Hinit| | |].
+    constructor; [exact Hst0|exact Hinit|exact Hone| | |].
     + intros k tk s Hk Hbl. destruct (Hown0 k tk s Hk (held_owned _ _ Hbl)).
     + intros k tk s Hk Hbl. destruct (Hown0 k tk s Hk Hbl).
     + intros k k' tk tk' s s' Hk _ Hbl. destruct (Hown0 k tk s Hk Hbl).
@@ -133,7 +149,7 @@ Proof.
   - intros m' Hm'. exists 0. split; [lia|].
     match goal with |- context [drv_of ?W m'] =>
       replace (drv_of W m') with new_driver by (unfold drv_of; cbn [w_d0 w_d1]; destruct (m' =? 0); reflexivity) end.
-    split; [exact inv_init|]. split; [|split; [|exact extra_init]].
+    split; [exact inv_init|]. split; [|split; [|exact snap_init]].
     + cbn [andb app new_driver scheduled].
       assert (Hnil : wakes m' (spend (inject 0 ts0 sp_new)) = []).
       { destruct (wakes m' (spend (inject 0 ts0 sp_new))) as [|a l] eqn:E; [reflexivity|exfalso].
@@ -153,6 +169,7 @@ Proof.
     rewrite Hj in Hj'. injection Hj' as <-. contradiction.
   - intros k (tk0 & Hk & _ & Hm) Hs. apply start_tasks_in in Hs. destruct Hs as (j & tk & -> & Hj & Hm' & _). cbn [Nat.add] in Hk.
     rewrite Hj in Hk. injection Hk as <-. lia.
+  - intros k tk _ _. lia.
   - constructor.
     + intros e He _. destruct (Hev e He) as (j & tk & Hj & Hne & Et & Ep). exists j, tk.
       split; [exact Ep|]. split; [exact Hj|]. split; [exact (Hun0 j tk Hj)|]. split; [exact Et|lia].
@@ -164,7 +181,7 @@ Proof.
       * intros p Hp. apply in_map_iff in Hp. destruct Hp as (e & <- & He). destruct (Hev e He) as (j & tk & _ & _ & _ & Ep).
         unfold msg_of in Ep. lia.
     + intros k tk Hk _. destruct (N.eq_dec (t_start tk) 0) as [Hz|Hnz].
-      * left. destruct (Hinit' tk (nth_error_In _ _ Hk)) as (_ & _ & _ & _ & _ & Hm).
+      * left. destruct (Hinit' tk (nth_error_In _ _ Hk)) as (_ & _ & _ & _ & _ & Hm & _).
         destruct (N.eq_dec (t_mod tk) 0) as [Hm0|Hm1].
         -- right. apply start_tasks_in. exists k, tk. repeat split; assumption.
         -- left. exists tk. split; [exact Hk|split; [exact Hz|lia]].
@@ -176,26 +193,28 @@ Proof.
       * apply start_tasks_in in Hs. destruct Hs as (j & tk & -> & Hj & _). exists tk. split; [exact Hj|exact (Hun0 j tk Hj)].
 Qed.
 
-Lemma start_pre1 ts0 : Forall init_ok ts0 ->
+Lemma start_pre1 ts0 : chan_ok ts0 ->
   let w1 := module_event true 0 0 (start_tasks 0 0 ts0) false (init_world ts0) in
-  PreEv ts0 (fun _ => False) w1 0 1 (start_tasks 1 0 (w_tasks w1)) false.
+  exists A, PreEv (arrivals ts0) A ts0 (fun _ => False) w1 0 1 (start_tasks 1 0 (w_tasks w1)) false.
 Proof.
-  intros Hinit. pose proof Hinit as Hinit'. rewrite Forall_forall in Hinit'. cbn zeta.
-  pose proof (module_event_winv _ _ _ _ _ _ _ (start_pre0 ts0 Hinit)) as W1.
+  intros Hok. pose proof (proj1 Hok) as Hinit. pose proof Hinit as Hinit'. rewrite Forall_forall in Hinit'. cbn zeta.
+  destruct (module_event_winv _ _ _ _ _ _ _ _ _ (start_pre0 ts0 Hok)) as (A & W1).
   set (w1 := module_event true 0 0 (start_tasks 0 0 ts0) false (init_world ts0)) in *.
-  destruct W1 as [Hsi Htc Hmail Hbase Hdrv [Mt Mn Ma Ml]].
+  destruct W1 as [Hsi Htc Hinert Harr Hnorecv Hbase Hdrv [Mt Mn Ma Ml]].
   assert (Hnow : w_now w1 = 0) by apply module_event_now.
   assert (Hsp1 : forall k, In k (start_tasks 1 0 (w_tasks w1)) -> later1 ts0 k).
   { intros k Hk. apply start_tasks_in in Hk. destruct Hk as (j & tk & -> & Hj & Hm & Hs). cbn [Nat.add].
-    destruct (Forall2_nth _ _ _ _ _ (b_states _ _ _ _ Hbase) Hj) as (tk0 & Hj0 & Hst).
-    destruct (tstate_cases _ _ Hst (Hinit' tk0 (nth_error_In _ _ Hj0))) as (E1 & E2 & _).
+    destruct (Forall2_nth _ _ _ _ _ (b_states _ _ _ _ _ _ Hbase) Hj) as (tk0 & Hj0 & Hst).
+    destruct (tstate_cases _ _ _ _ Hst (Hinit' tk0 (nth_error_In _ _ Hj0))) as (E1 & E2 & _).
     exists tk0. split; [exact Hj0|split; lia]. }
-  constructor.
+  exists A. constructor.
   - exact Hsi.
   - exact (eq_trans Htc Hnow).
   - lia.
   - intros e _. lia.
-  - exact Hmail.
+  - exact Hinert.
+  - exact Harr.
+  - exact Hnorecv.
   - exact Hbase.
   - lia.
   - intros m' Hm'. destruct (Hdrv m' Hm') as (l & Hl & Hinv & Hperm & Htie & Hex). exists l.
@@ -208,33 +227,35 @@ Proof.
     rewrite Ee in E1. apply msg_of_inj in E1. subst k'.
     apply start_tasks_in in Hk. destruct Hk as (j & tk' & -> & Hj & _ & Hs). cbn [Nat.add] in Hk'. rewrite Hj in Hk'. injection Hk' as <-. lia.
   - intros k [].
+  - intros k tk [].
   - constructor.
     + exact Mt.
     + exact Mn.
     + intros k tk Hk Hun. destruct (Ma k tk Hk Hun) as [(tk0 & Hk0 & Hs0 & Hm0)|H]; [|right; exact H].
       left. right. apply start_tasks_in. exists k, tk. split; [reflexivity|]. split; [exact Hk|].
-      destruct (Forall2_nth _ _ _ _ _ (b_states _ _ _ _ Hbase) Hk) as (tk0' & Hk0' & Hst). rewrite Hk0 in Hk0'. injection Hk0' as <-.
-      destruct (tstate_cases _ _ Hst (Hinit' tk0 (nth_error_In _ _ Hk0))) as (E1 & E2 & _). split; lia.
+      destruct (Forall2_nth _ _ _ _ _ (b_states _ _ _ _ _ _ Hbase) Hk) as (tk0' & Hk0' & Hst). rewrite Hk0 in Hk0'. injection Hk0' as <-.
+      destruct (tstate_cases _ _ _ _ Hst (Hinit' tk0 (nth_error_In _ _ Hk0))) as (E1 & E2 & _). split; lia.
     + intros k [[]|Hk]. exact (Ml k (Hsp1 k Hk)).
 Qed.
 
-Lemma sim_start_winv ts0 : Forall init_ok ts0 -> WInv ts0 (fun _ => False) (sim_start true (init_world ts0)).
+Lemma sim_start_winv ts0 : chan_ok ts0 -> WInvE (arrivals ts0) ts0 (fun _ => False) (sim_start true (init_world ts0)).
 Proof.
-  intros Hinit. unfold sim_start. apply winv_take_snaps, module_event_winv. exact (start_pre1 ts0 Hinit).
+  intros Hok. unfold sim_start. destruct (start_pre1 ts0 Hok) as (A & HP).
+  destruct (module_event_winv _ _ _ _ _ _ _ _ _ HP) as (A' & HW). exists A'. apply winv_take_snaps. exact HW.
 Qed.
 
 (* ---- termination ---- *)
-Lemma iter_terminates ts0 n : forall w, WInv ts0 (fun _ => False) w -> (mu w < n)%nat ->
+Lemma iter_terminates A0 ts0 n : forall w, WInvE A0 ts0 (fun _ => False) w -> (mu w < n)%nat ->
   exists w', iter_nat n (loop_step true) w = inr w'.
 Proof.
   induction n as [|n IH]; intros w HW Hlt; [lia|]. cbn [iter_nat].
-  pose proof (loop_step_winv ts0 w HW) as H1. pose proof (loop_step_measure ts0 w HW) as H2.
+  pose proof (loop_step_winv A0 ts0 w HW) as H1. pose proof (loop_step_measure A0 ts0 w HW) as H2.
   destruct (loop_step true w) as [w'|w']; [apply IH; [exact H1|lia]|exists w'; reflexivity].
 Qed.
 
 Definition size (ts : list task) : nat := fold_right (fun tk n => (length (t_steps tk) + 1 + n)%nat) 0%nat ts.
 
-Lemma work_init ts : Forall init_ok ts -> work ts = (2 * size ts)%nat.
+Lemma work_init A0 ts : Forall (init_ok2 A0) ts -> work ts = (2 * size ts)%nat.
 Proof.
   induction 1 as [|tk r Hi _ IH]; [reflexivity|]. cbn [work size fold_right]. fold (work r). fold (size r). rewrite IH.
   destruct Hi as (_ & I2 & _ & _ & I5 & _). unfold wt. rewrite I2, I5. lia.
@@ -249,73 +270,222 @@ Qed.
 Lemma size_len ts : (length ts <= size ts)%nat.
 Proof. induction ts as [|tk r IH]; cbn [size fold_right length]; [lia|]. fold (size r). lia. Qed.
 
-Lemma sim_start_mu ts0 : Forall init_ok ts0 -> (mu (sim_start true (init_world ts0)) <= 5 * size ts0 + 2)%nat.
+Lemma sim_start_mu ts0 : chan_ok ts0 -> (mu (sim_start true (init_world ts0)) <= 5 * size ts0 + 4)%nat.
 Proof.
-  intros Hinit.
-  destruct (module_event_measure _ _ _ _ _ _ _ (start_pre0 ts0 Hinit)) as (n0 & A0 & _).
-  destruct (module_event_measure _ _ _ _ _ _ _ (start_pre1 ts0 Hinit)) as (n1 & A1 & _). cbn zeta in A1.
+  intros Hok. pose proof (proj1 Hok) as Hinit.
+  destruct (module_event_measure _ _ _ _ _ _ _ _ _ (start_pre0 ts0 Hok)) as (B0 & _).
+  destruct (start_pre1 ts0 Hok) as (A & HP1).
+  destruct (module_event_measure _ _ _ _ _ _ _ _ _ HP1) as (B1 & _). cbn zeta in B0, B1.
   unfold sim_start, mu. change (w_tasks (take_snaps ?W)) with (w_tasks W). change (w_fes (take_snaps ?W)) with (w_fes W).
+  change (drv_of (take_snaps ?W) ?M) with (drv_of W M).
   change (w_tasks (init_world ts0)) with ts0 in *.
   destruct (inject_spec ts0 0 sp_new SI_new eq_refl) as (_ & _ & I3). cbn [spend sp_new sp_new_at s_zero s_rest app map] in I3.
   pose proof (Permutation_length I3) as Hl. rewrite map_length in Hl.
-  change (w_fes (init_world ts0)) with (inject 0 ts0 sp_new) in A0.
-  pose proof (msgs_len ts0 0%nat). pose proof (size_len ts0). rewrite (work_init ts0 Hinit) in A0. lia.
+  change (w_fes (init_world ts0)) with (inject 0 ts0 sp_new) in B0.
+  pose proof (msgs_len ts0 0%nat). pose proof (size_len ts0). rewrite (work_init _ ts0 Hinit) in B0.
+  match goal with |- (_ + stale ?d0 + stale ?d1 <= _)%nat => pose proof (stale_le d0); pose proof (stale_le d1) end. lia.
 Qed.
 
 (* ---- whole runs ---- *)
-(* For EVERY script over {sleep(d), sleep_until(t), log}, with any number of tasks on the two
+(* For EVERY list of tasks over the fragment (with channels: chan_ok), any number of tasks on the two
    modules, spawned at start-up or by messages at any instants: whenever the run of the
    composite model ends, every task has finished and has logged exactly the instants the
    property demands -- each await returned at exactly its deadline. *)
-Theorem composite_sleep_exact_if_ends ts0 : Forall init_ok ts0 ->
-  forall w, run_tasks true ts0 = (w, true) -> Forall2 done_exact ts0 (w_tasks w).
+Theorem composite_exact_if_ends ts0 : chan_ok ts0 ->
+  forall w, run_tasks true ts0 = (w, true) -> Forall2 (done_exact (arrivals ts0)) ts0 (w_tasks w).
 Proof.
-  intros Hinit w Hrun. unfold run_tasks in Hrun. rewrite iter_until_nat in Hrun.
-  pose proof (iter_winv ts0 (Pos.to_nat (fuel ts0)) _ (sim_start_winv ts0 Hinit)) as H.
+  intros Hok w Hrun. unfold run_tasks in Hrun. rewrite iter_until_nat in Hrun.
+  pose proof (iter_winv (arrivals ts0) ts0 (Pos.to_nat (fuel ts0)) _ (sim_start_winv ts0 Hok)) as H.
   destruct (iter_nat (Pos.to_nat (fuel ts0)) (loop_step true) (sim_start true (init_world ts0))) as [w'|w']; [discriminate|].
-  injection Hrun as <-. destruct H as [HW Hsp]. exact (winv_final ts0 w' HW Hsp).
+  injection Hrun as <-. destruct H as [[A HW] Hsp]. exact (winv_final _ A ts0 w' HW Hsp).
 Qed.
 
 (* and at every point of the run, ended or not: nothing is ever logged that the property does
    not demand (never early, never late, nothing spurious) *)
-Theorem composite_sleep_prefix ts0 : Forall init_ok ts0 -> forall n,
+Theorem composite_prefix ts0 : chan_ok ts0 -> forall n,
   let w := match iter_nat n (loop_step true) (sim_start true (init_world ts0)) with inl w => w | inr w => w end in
-  Forall2 (fun tk0 tk => exists rest, expected tk0 = t_log tk ++ rest) ts0 (w_tasks w).
+  Forall2 (fun tk0 tk => exists rest, expected (arrivals ts0) tk0 = t_log tk ++ rest) ts0 (w_tasks w).
 Proof.
-  intros Hinit n. cbn zeta.
-  pose proof (iter_winv ts0 n _ (sim_start_winv ts0 Hinit)) as H.
+  intros Hok n. cbn zeta.
+  pose proof (iter_winv (arrivals ts0) ts0 n _ (sim_start_winv ts0 Hok)) as H.
   destruct (iter_nat n (loop_step true) (sim_start true (init_world ts0))) as [w'|w'].
-  - exact (winv_prefix _ _ _ H).
-  - exact (winv_prefix _ _ _ (proj1 H)).
+  - destruct H as [A H]. exact (winv_prefix _ _ _ _ _ H).
+  - destruct H as [[A H] _]. exact (winv_prefix _ _ _ _ _ H).
 Qed.
 
 (* ... and every run ends: the fuel of the model's main loop is never exhausted *)
-Theorem composite_sleep_exact ts0 : Forall init_ok ts0 ->
-  exists w, run_tasks true ts0 = (w, true) /\ Forall2 done_exact ts0 (w_tasks w).
+Theorem composite_exact ts0 : chan_ok ts0 ->
+  exists w, run_tasks true ts0 = (w, true) /\ Forall2 (done_exact (arrivals ts0)) ts0 (w_tasks w).
 Proof.
-  intros Hinit.
+  intros Hok.
   assert (Hfuel : (mu (sim_start true (init_world ts0)) < Pos.to_nat (fuel ts0))%nat).
-  { pose proof (sim_start_mu ts0 Hinit) as H. unfold fuel. fold (size ts0).
+  { pose proof (sim_start_mu ts0 Hok) as H. unfold fuel. fold (size ts0).
     pose proof (N.succ_pos_spec (16 * N.of_nat (size ts0) + 64)) as Hs. lia. }
-  destruct (iter_terminates ts0 _ _ (sim_start_winv ts0 Hinit) Hfuel) as (w' & Hw').
+  destruct (iter_terminates _ ts0 _ _ (sim_start_winv ts0 Hok) Hfuel) as (w' & Hw').
   assert (Hrun : run_tasks true ts0 = (w', true)) by (unfold run_tasks; rewrite iter_until_nat, Hw'; reflexivity).
-  exists w'. split; [exact Hrun|]. exact (composite_sleep_exact_if_ends ts0 Hinit w' Hrun).
+  exists w'. split; [exact Hrun|]. exact (composite_exact_if_ends ts0 Hok w' Hrun).
+Qed.
+
+(* ---- without channels ---- *)
+(* scripts over the fragment without channels meet the hypotheses, whatever the arrivals *)
+Lemma old_rcv steps : Forall frag_step steps -> existsb is_recv steps = false.
+Proof. induction 1 as [|st r Hst _ IH]; [reflexivity|]. cbn [existsb]. rewrite IH. destruct st; try reflexivity; contradiction. Qed.
+
+Lemma init_ok_2 A0 tk0 : init_ok tk0 -> init_ok2 A0 tk0 /\ rcv_of tk0 = false /\ expected A0 tk0 = expected (fun _ => noarr) tk0.
+Proof.
+  intros (I1 & I2 & I3 & I4 & I5 & I6 & I7).
+  assert (Hr : rcv_of tk0 = false) by (apply old_rcv; exact I1).
+  pose proof (frag_step2_false_of_old _ I1) as I1'.
+  assert (He : expected A0 tk0 = expected (fun _ => noarr) tk0) by (apply exp_run_noarr; exact I1').
+  split; [|split; [exact Hr|exact He]].
+  unfold init_ok2. rewrite Hr, He. repeat split; try assumption. apply recv_ok_noarr. exact I1'.
+Qed.
+
+Lemma init_chan_ok ts0 : Forall init_ok ts0 -> chan_ok ts0.
+Proof.
+  intros H. split.
+  - eapply Forall_impl; [|exact H]. intros tk Hi. exact (proj1 (init_ok_2 _ tk Hi)).
+  - intros k k' tk0 tk0' Hk _ Hr _ _. rewrite Forall_forall in H.
+    rewrite (proj1 (proj2 (init_ok_2 (arrivals ts0) tk0 (H tk0 (nth_error_In _ _ Hk))))) in Hr. discriminate.
+Qed.
+
+Lemma done_exact_old ts0 w : Forall init_ok ts0 -> Forall2 (done_exact (arrivals ts0)) ts0 (w_tasks w) ->
+  Forall2 (fun tk0 tk => t_fin tk = true /\ t_log tk = expected (fun _ => noarr) tk0) ts0 (w_tasks w).
+Proof.
+  intros Hinit H. rewrite Forall_forall in Hinit. apply (Forall2_nth_impl _ _ _ _ H). intros k tk0 tk Hk0 _ [H1 H2].
+  split; [exact H1|]. rewrite H2. exact (proj2 (proj2 (init_ok_2 _ tk0 (Hinit tk0 (nth_error_In _ _ Hk0))))).
+Qed.
+
+Theorem composite_sleep_exact_if_ends ts0 : Forall init_ok ts0 ->
+  forall w, run_tasks true ts0 = (w, true) ->
+  Forall2 (fun tk0 tk => t_fin tk = true /\ t_log tk = expected (fun _ => noarr) tk0) ts0 (w_tasks w).
+Proof. intros Hinit w Hrun. exact (done_exact_old ts0 w Hinit (composite_exact_if_ends ts0 (init_chan_ok ts0 Hinit) w Hrun)). Qed.
+
+Theorem composite_sleep_prefix ts0 : Forall init_ok ts0 -> forall n,
+  let w := match iter_nat n (loop_step true) (sim_start true (init_world ts0)) with inl w => w | inr w => w end in
+  Forall2 (fun tk0 tk => exists rest, expected (fun _ => noarr) tk0 = t_log tk ++ rest) ts0 (w_tasks w).
+Proof.
+  intros Hinit n. pose proof (composite_prefix ts0 (init_chan_ok ts0 Hinit) n) as H. cbn zeta in *.
+  rewrite Forall_forall in Hinit. apply (Forall2_nth_impl _ _ _ _ H). intros k tk0 tk Hk0 _ (rest & Hr).
+  exists rest. rewrite <- Hr. symmetry. exact (proj2 (proj2 (init_ok_2 _ tk0 (Hinit tk0 (nth_error_In _ _ Hk0))))).
+Qed.
+
+Theorem composite_sleep_exact ts0 : Forall init_ok ts0 ->
+  exists w, run_tasks true ts0 = (w, true) /\
+    Forall2 (fun tk0 tk => t_fin tk = true /\ t_log tk = expected (fun _ => noarr) tk0) ts0 (w_tasks w).
+Proof.
+  intros Hinit. destruct (composite_exact ts0 (init_chan_ok ts0 Hinit)) as (w & Hrun & H).
+  exists w. split; [exact Hrun|exact (done_exact_old ts0 w Hinit H)].
 Qed.
 
 (* every script line decodes into tasks of the shape the theorems ask for *)
-Lemma decode_init_ok input :
-  Forall (fun tk => Forall frag_step (t_steps tk) /\ Forall (fun x => x < TMAX) (expected tk)) (decode input) ->
-  Forall init_ok (decode input).
+Lemma decode_shape input : Forall (fun tk => t_cur tk = None /\ t_iv tk = None /\ t_log tk = [] /\ t_fin tk = false /\ t_mod tk < 2) (decode input).
 Proof.
-  unfold decode. destruct input as [|nm [|n r]]; try (intros _; constructor).
+  unfold decode. destruct input as [|nm [|n r]]; try constructor.
   set (mods := 1 + nm mod 2). assert (Hmods : mods <= 2) by (unfold mods; pose proof (N.mod_upper_bound nm 2); lia).
   assert (Hmods0 : mods <> 0) by (unfold mods; generalize (nm mod 2); intros; lia).
-  generalize (take_blobs (N.to_nat (N.min n (N.of_nat (length r)))) r). intros bl. induction bl as [|b bl IH]; cbn [map]; intros H; [constructor|].
-  inversion H as [|? ? [Hb Hfin] Hr]; subst. constructor; [|exact (IH Hr)].
+  generalize (take_blobs (N.to_nat (N.min n (N.of_nat (length r)))) r). intros bl. induction bl as [|b bl IH]; cbn [map]; [constructor|].
+  constructor; [|exact IH].
   assert (Hmod : t_mod (dec_task mods b) < 2).
   { unfold dec_task. destruct b as [|m0 [|s rest]]; cbn [t_mod]; try lia. pose proof (N.mod_upper_bound m0 mods Hmods0). lia. }
   assert (Hshape : t_cur (dec_task mods b) = None /\ t_iv (dec_task mods b) = None /\ t_log (dec_task mods b) = [] /\ t_fin (dec_task mods b) = false).
   { unfold dec_task. destruct b as [|m0 [|s rest]]; repeat split. }
-  destruct Hshape as (S1 & S2 & S3 & S4).
-  split; [exact Hb|]. split; [exact S1|]. split; [exact S2|]. split; [exact S3|]. split; [exact S4|]. split; [exact Hmod|exact Hfin].
+  destruct Hshape as (S1 & S2 & S3 & S4). repeat split; assumption.
+Qed.
+
+Lemma decode_init_ok input :
+  Forall (fun tk => Forall frag_step (t_steps tk) /\ Forall (fun x => x < TMAX) (expected (fun _ => noarr) tk)) (decode input) ->
+  Forall init_ok (decode input).
+Proof.
+  intros H. pose proof (decode_shape input) as Hs. rewrite Forall_forall in *. intros tk Htk.
+  destruct (H tk Htk) as [H1 H2]. destruct (Hs tk Htk) as (S1 & S2 & S3 & S4 & S5). repeat split; assumption.
+Qed.
+
+Lemma decode_chan_ok input :
+  Forall (fun tk => Forall (frag_step2 (rcv_of tk)) (t_steps tk) /\ Forall (fun x => x < TMAX) (expected (arrivals (decode input)) tk) /\
+                    recv_ok (t_start tk) None (arrivals (decode input) (t_mod tk)) (t_steps tk)) (decode input) ->
+  one_recv (decode input) -> chan_ok (decode input).
+Proof.
+  intros H Hone. split; [|exact Hone]. pose proof (decode_shape input) as Hs. rewrite Forall_forall in *. intros tk Htk.
+  destruct (H tk Htk) as (H1 & H2 & H3). destruct (Hs tk Htk) as (S1 & S2 & S3 & S4 & S5). repeat split; assumption.
+Qed.
+
+(* ---- the hypotheses, decidably: for concrete scripts they are checked by computation ---- *)
+Definition frag_step2b (rcv : bool) (s : step) : bool :=
+  match s with
+  | SSleep _ | SSleepUntil _ | SLog | SIvTick | SIvDrop => true
+  | SReset _ d1 d2 => (d1 <? FARK) && (d2 <? FARK)
+  | SDropSleep d => d <? FARK
+  | STimeout d (ISleep x) => (d <? FARK) && (x <? FARK)
+  | SSelect _ a b => (a <? FARK) && (b <? FARK)
+  | SIvNew p _ => 0 <? p
+  | SKeep _ _ d2 x d3 => (d2 <? FARK) && (x <? FARK) && (d3 <? FARK)
+  | STimeoutRecv d _ => rcv && (d <? FARK)
+  | SHandOver _ d => negb rcv && (d =? 0)
+  | _ => false
+  end.
+
+Lemma frag_step2b_sound rcv s : frag_step2b rcv s = true -> frag_step2 rcv s.
+Proof.
+  destruct s; cbn [frag_step2b frag_step2 frag_step]; try discriminate; try (intros _; exact I); intros H;
+    repeat match goal with H : _ && _ = true |- _ => apply andb_true_iff in H; destruct H end; try lia.
+  destruct v; [|discriminate]. apply andb_true_iff in H. lia.
+Qed.
+
+Definition step_okb (now : N) (arr : arrs) (st : step) : bool :=
+  match st with
+  | STimeoutRecv d ch => (now + d <? TMAX) && match arr ch with a :: _ => negb (a =? now + d) | [] => true end
+  | _ => true
+  end.
+
+Fixpoint recv_okb (now : N) (iv : ivs) (arr : arrs) (steps : list step) : bool :=
+  match steps with
+  | [] => true
+  | st :: r => step_okb now arr st && recv_okb (step_time now iv arr st) (step_iv now iv st) (step_arr now arr st) r
+  end.
+
+Lemma recv_okb_sound steps : forall now iv arr, recv_okb now iv arr steps = true -> recv_ok now iv arr steps.
+Proof.
+  induction steps as [|st r IH]; intros now iv arr H; cbn [recv_okb recv_ok] in *; [exact I|].
+  apply andb_true_iff in H. destruct H as [H1 H2]. split; [|exact (IH _ _ _ H2)].
+  destruct st; cbn [step_okb step_ok] in *; try exact I. apply andb_true_iff in H1. destruct H1 as [G1 G2].
+  split; [lia|]. destruct (arr ch) as [|a l]; [exact I|]. apply negb_true_iff in G2. lia.
+Qed.
+
+Fixpoint one_recvb (ts : list task) : bool :=
+  match ts with
+  | [] => true
+  | tk :: r => (negb (rcv_of tk) || negb (existsb (fun tk' => rcv_of tk' && (t_mod tk' =? t_mod tk)) r)) && one_recvb r
+  end.
+
+Lemma one_recvb_sound ts : one_recvb ts = true -> one_recv ts.
+Proof.
+  induction ts as [|tk r IH]; intros H k k' tk0 tk0' Hk Hk' Hr Hr' Hm; [destruct k; discriminate|].
+  cbn [one_recvb] in H. apply andb_true_iff in H. destruct H as [H1 H2].
+  assert (Hex : forall j tkj tkh, nth_error r j = Some tkj -> rcv_of tkj = true -> rcv_of tkh = true -> t_mod tkj = t_mod tkh -> tkh = tk -> False).
+  { intros j tkj tkh Hj Hrj Hrh Hmm ->. rewrite Hrh in H1. cbn [negb orb] in H1. apply negb_true_iff in H1.
+    assert (existsb (fun tk' => rcv_of tk' && (t_mod tk' =? t_mod tk)) r = true).
+    { apply existsb_exists. exists tkj. split; [eapply nth_error_In; exact Hj|]. rewrite Hrj, Hmm, N.eqb_refl. reflexivity. }
+    congruence. }
+  destruct k as [|k], k' as [|k']; cbn [nth_error] in Hk, Hk'.
+  - reflexivity.
+  - exfalso. injection Hk as <-. exact (Hex k' tk0' tk Hk' Hr' Hr (eq_sym Hm) eq_refl).
+  - exfalso. injection Hk' as <-. exact (Hex k tk0 tk Hk Hr Hr' Hm eq_refl).
+  - f_equal. exact (IH H2 k k' tk0 tk0' Hk Hk' Hr Hr' Hm).
+Qed.
+
+Definition chan_okb (ts : list task) : bool :=
+  forallb (fun tk => forallb (frag_step2b (rcv_of tk)) (t_steps tk) &&
+                     forallb (fun x => x <? TMAX) (expected (arrivals ts) tk) &&
+                     recv_okb (t_start tk) None (arrivals ts (t_mod tk)) (t_steps tk)) ts && one_recvb ts.
+
+Lemma decode_chan_okb input : chan_okb (decode input) = true -> chan_ok (decode input).
+Proof.
+  intros H. unfold chan_okb in H. apply andb_true_iff in H. destruct H as [H1 H2].
+  apply decode_chan_ok; [|exact (one_recvb_sound _ H2)].
+  rewrite forallb_forall in H1. apply Forall_forall. intros tk Htk. specialize (H1 tk Htk).
+  apply andb_true_iff in H1. destruct H1 as [H1 G3]. apply andb_true_iff in H1. destruct H1 as [G1 G2].
+  split; [|split; [|exact (recv_okb_sound _ _ _ _ G3)]].
+  - rewrite forallb_forall in G1. apply Forall_forall. intros st Hst. exact (frag_step2b_sound _ _ (G1 st Hst)).
+  - rewrite forallb_forall in G2. apply Forall_forall. intros x Hx. specialize (G2 x Hx). lia.
 Qed.
